@@ -284,7 +284,6 @@ class Buffer:
 
         current_obs = self.hot[b].observation_for_transfer()
         # current_obs = self.hot.observations['transfer']
-        self._data_left_to_transfer = current_obs.total_data_size
         data_left_to_transfer = current_obs.total_data_size
         _total_data = current_obs.total_data_size
         _tqdm = False
@@ -298,6 +297,7 @@ class Buffer:
             self.hot[b].observations['stored'].append(current_obs)
             self.hot[b].observations['transfer'] = None
             return False
+        self._data_left_to_transfer = data_left_to_transfer
         self._add_event(current_obs, "transfer", "started")
         while True:
             # data_transfer_time = observation_size / self.cold.max_data_rate
